@@ -122,6 +122,9 @@ func c04(c *Ctx) {
 	// the recorded sandbox id the guard compares with survives an upgrade (shared rule)
 	c05R9(c)
 	c04R7(c)
+	// shared: ownership is given up only by the owner-checked release (writer set of IP.podID, C01.R4) —
+	// a repeated DEL cannot free an address another pod holds
+	c01R4(c)
 	ruleArgSwap(c, "C04.R8", c.P.AllFuncs(), "the whole module (the pod key namespace/name identifies the record and the owner of an address)")
 }
 
